@@ -217,6 +217,9 @@ fn eval_c10(sc: &Scenario) -> Outcome {
 pub fn gen_bad_call(rng: &mut Rng) -> BadCall {
     let delta = *rng.pick(&[-1i8, 1, 1, 2, -2, 3]);
     let zero = rng.chance(0.2);
+    if rng.chance(0.08) {
+        return BadCall::ForeignUnwind { seed: rng.next() as u32 };
+    }
     match rng.below(5) {
         0 => BadCall::InChannels { delta, zero },
         1 => BadCall::OutChannels { delta, zero },
@@ -309,6 +312,7 @@ fn expected_bad(cfg: &Config, call: &BadCall, s: &StepRec) -> E {
         BadCall::InChannels { .. } => E::WrongNumberOfInputChannels { expected: ch, actual: s.ctl_bits as usize },
         BadCall::OutChannels { .. } => E::WrongNumberOfOutputChannels { expected: ch, actual: s.ctl_bits as usize },
         BadCall::MaskLen { .. } => E::WrongNumberOfMaskChannels { expected: ch, actual: s.ctl_bits as usize },
+        BadCall::ForeignUnwind { .. } => unreachable!(),
         BadCall::InShort { .. } => E::InsufficientInputBufferSize { channel: s.ctl_chunk, expected: s.pre.in_next, actual: s.ctl_bits as usize },
         BadCall::OutShort { .. } => E::InsufficientOutputBufferSize { channel: s.ctl_chunk, expected: s.pre.out_next, actual: s.ctl_bits as usize },
     }
@@ -667,7 +671,14 @@ fn gen_c16(seed: u64, tier: Tier) -> Scenario {
         m.w_reset = 0.0;
         m.w_chunk = 0.0;
     }
-    let (p, ops, t) = if flush { ("uniform".to_string(), gen_ops_uniform(&mut rng, &sc.config, &m), 0.0) } else { gen_history(&mut rng, &sc.config, &m) };
+    let (p, mut ops, t) = if flush { ("uniform".to_string(), gen_ops_uniform(&mut rng, &sc.config, &m), 0.0) } else { gen_history(&mut rng, &sc.config, &m) };
+    if !flush && rng.chance(0.25) && !ops.is_empty() {
+        // fault: another resampler's call on this thread unwinds out of a user buffer accessor
+        for _ in 0..rng.usize_in(1, 2) {
+            let at = rng.usize_in(0, ops.len() - 1);
+            ops.insert(at, Op::Bad { call: BadCall::ForeignUnwind { seed: rng.next() as u32 }, path: Path::PartialInto });
+        }
+    }
     let mut idx = Vec::new();
     let mut paths = Vec::new();
     for (i, op) in ops.iter().enumerate() {
